@@ -7,8 +7,8 @@ CONSTANTS
   MaxProps = 2
   StopDeltas = {1, 3}
   TrigDeltas = {0, 1}
-  Pcts = {51, 100}
-  Toks = {"ok", "bad"}
+  Pcts = {51}
+  Toks = {"bad"}
   MaxOps = 1000000
   MaxH = 5
   LowAcc = {}
